@@ -6,7 +6,7 @@
 (* result is computed by the specification module of that function.        *)
 (* Divergences are collected as data.  TRACE / OUT as in Trace_Session.    *)
 (***************************************************************************)
-EXTENDS SpendSetup, Flags, Amounts, Transforms, Assembler, Json, IOUtils, TLC
+EXTENDS SpendSetup, Flags, Amounts, Transforms, Assembler, Cli, Json, IOUtils, TLC
 
 Tr == ndJsonDeserialize(IOEnv.TRACE)
 OutFile == IOEnv.OUT
@@ -141,6 +141,7 @@ Next ==
        ELSE IF ev.e = "Tx" THEN
             (IF TxExpected(ev).ok = "unspec" THEN /\ stats' = [stats EXCEPT !.calls = @ + 1] /\ cov' = cov \cup {<<"Tx", "trailing-bytes">>} /\ UNCHANGED divs
              ELSE Judge(ev, TxExpected(ev), TxObserved(ev), <<"Tx", ev.ok, IF ev.ok THEN ev.haswit ELSE FALSE, IF ev.ok THEN Len(ev.vin) ELSE 0>>))
+       ELSE IF ev.e = "Robust" THEN Judge(ev, [robust |-> TRUE], [robust |-> RobustOutcome(ev)], <<"Robust", ev.tool, ev.cls>>)
        ELSE IF ev.e = "Tf" THEN Judge(ev, TfExpected(ev), TfObserved(ev), <<"Tf", ev.name, ev.form, ev.failed>>)
        ELSE IF ev.e = "Btcc" THEN Judge(ev, BtccExpected(ev), BtccObserved(ev), <<"Btcc", ev.kind>>)
        ELSE IF ev.e = "Tap" THEN Judge(ev, TapExpected(ev), TapObserved(ev), <<"Tap", ev.mode, Len(ev.scripts), ev.sighash # "">>)
